@@ -27,7 +27,7 @@ def shards(tier):
         vs = list(dsl.lens_vectors(4, 3))
     else:
         vs = list(dsl.lens_vectors(5, 3)) + [v for v in dsl.lens_vectors(3, 5) if max(v, default=0) > 3]
-    return [{"lens": v} for v in vs]
+    return [{"lens": v} for v in vs] + [{"lens": [3, 0, 7, 1, 0, 0, 12, 2, 5, 0, 9, 4, 1, 33, 0, 2]}]        # + one larger array (16 rows, 79 cells)
 
 
 def cases(shard, tier):
@@ -77,7 +77,7 @@ def check(case, acc):
             acc.feature("all_rows_empty")
     if k == "inf":
         acc.feature("float_inf_pattern")
-        flat = np.array(([1.5, float("inf"), 0.25, -2.0, 4.0, float("-inf"), 0.5, 3.0] * 3)[:size], dtype=dt)
+        flat = np.array(([1.5, float("inf"), 0.25, -2.0, 4.0, float("-inf"), 0.5, 3.0] * (size // 8 + 1))[:size], dtype=dt)
     else:
         flat = dsl.pattern(dt, size, k)
     if op == "mean" and dt in ("int64", "uint64"):
